@@ -108,7 +108,7 @@ PRODUCTIONS = {
     "P.Tuple": (B("("), B(")")), "S.Let": (B("let"), B(";")), "args": (B("("), B(")")),
     "lparams": (B("("), B(")")), "params": (B("("), B(")")), "targs": (B("<"), B(">")),
     "tlist": (B("("), B(")")), "tparams": (B("<"), B(">")), "typedef": (B("(", "<"), B(")")),
-    "toplevel": (B("class", "interface", "private"), None), "import": (B("import"), None),
+    "toplevel": (B("class", "interface", "private"), None), "import": (B("import"), "last-or-;"),
     "P.Wildcard": (B("_"), B("_")),
 }
 NAMED = ("name", "E.LocalId", "E.ClassId")
@@ -220,6 +220,10 @@ def walk_oracle(data, ans, hist=None):
         depth, kind, a, b, sp, name, kids = n
         if hist is not None:
             hist[kind] = hist.get(kind, 0) + 1
+        if kind == "modpath":
+            flat = re.sub(rb"/\*.*?\*/|//[^\n]*|\s+", b"", data[a:b], flags=re.S)
+            if flat != name:
+                bad.append(f"module path `{name.decode()}` at {sp} covers {data[a:b][:40]!r}")
         if kind in NAMED and data[a:b] != name:
             bad.append(f"{kind} {name!r} at {sp} covers {data[a:b][:30]!r}")
         for k in kids:
@@ -231,7 +235,10 @@ def walk_oracle(data, ans, hist=None):
             for side, r in enumerate(rule):
                 if r is None:
                     continue
-                if r in ("first", "last"):
+                if r == "last-or-;":        # `import {..} from a.b.c` ends at its path, `...;` at the semicolon
+                    if kids and b != kids[-1][3] and not (data[a:b].endswith(b";") and not data[kids[-1][3]:b - 1].strip(WS)):
+                        bad.append(f"{kind} {sp} ends neither at its module path ({kids[-1][4]}) nor at a `;` directly after it")
+                elif r in ("first", "last"):
                     if kids:
                         want = kids[0][2] if side == 0 else kids[-1][3]
                         if (a if side == 0 else b) != want:
@@ -270,7 +277,7 @@ def svc_oracle(module, data, ans, hist=None):
         kind, _, rest = head.partition("@")
         if hist is not None:
             hist[kind] = hist.get(kind, 0) + 1
-        locs = [] if (val in ("none", "syn") or val.startswith("ok")) else [parse_loc(x) for x in val.split(",")]
+        locs = [] if (val in ("none", "syn") or val.startswith("ok") or kind == "impdiag") else [parse_loc(x) for x in val.split(",")]
         for mod, sp, inside, cov in locs:
             if not inside:
                 bad.append(f"{kind} at {rest}: result {mod} {sp} is outside its document or has start after end")
@@ -307,6 +314,9 @@ def svc_oracle(module, data, ans, hist=None):
             #  observation forwarded to C15, exempt here)
             if int(n_refs) > 0 and n_new != n_refs and not (n_new == "0" and n_refs == "1"):
                 bad.append(f"rename at {rest} wrote the new name {n_new} time(s) but the variable has {n_refs} reference(s)")
+        elif kind == "impdiag":
+            if val != "-" and rest not in val.split(","):
+                bad.append(f"`cannot resolve module` is reported at {rest}, which is none of the import ranges {val}")
         elif kind == "diag":
             pass    # in-document and start <= end of the diagnostic and of each of its reference locations: checked above
     return bad[:12]
@@ -316,6 +326,7 @@ def svc_oracle(module, data, ans, hist=None):
 # layout generator: re-lays out the tokens of real programs (syntactically valid by construction)
 
 def relayout(rng, src):
+    src = vary_imports(rng, src)
     toks = [t for t in c05.TOKEN_RE.findall(src)]
     out = []
     for t in toks:
@@ -473,6 +484,27 @@ def gen_expr_if(r, d):
     return "if " + paren(gen_expr(r, max(d - 1, 0)), 9) + " " + gen_block(r, max(d - 1, 0)) + " else " + gen_block(r, max(d - 1, 0))
 
 
+def gen_imports(r):
+    """0-3 imports: 1-4 path segments x with / without `;` x followed by newline / comment / another import /
+    the class on the same line"""
+    out = []
+    for _ in range(r.pick([0, 1, 1, 2, 3])):
+        segs = [r.pick(["a", "lib", "util", "x", "Helpers", "std", "B"]) for _ in range(r.range(1, 4))]
+        members = ", ".join(r.pick(["Foo", "Bar", "Helper"]) for _ in range(r.range(1, 3)))
+        path = r.pick([".", ".", " . ", "./* c */", "\n."]).join(segs)
+        out.append("import { " + members + r.pick(["", ","]) + " } from " + path + r.pick(["", "", ";", " ;"])
+                   + r.pick(["\n", "\n", " ", " // c\n", " /* c */ ", "\n\n", "\r\n"]))
+    return "".join(out)
+
+
+def vary_imports(r, src):
+    """real programs: drop or add the `;` after an import and sometimes put the next construct on the same line"""
+    def f(m):
+        tail = r.pick([m.group(2), "", ";", ""])
+        return m.group(1) + tail + r.pick([m.group(3), " ", m.group(3)])
+    return re.sub(r"(import\s*\{[^}]*\}\s*from\s+[A-Za-z0-9.]+)(;?)([ \t]*\r?\n)", f, src)
+
+
 def gen_module(r):
     members = []
     for i in range(r.range(1, 4)):
@@ -482,7 +514,7 @@ def gen_module(r):
         members.append(f"  {kw} {tps}{' ' if tps else ''}m{i}({params}): {gen_type(r, 2)} = {gen_expr(r, r.range(1, 4))[0]}")
     head = r.pick(["class Main", "class Main<T>", "private class Main", "class Main(val a: int, private val b: " + gen_type(r, 1) + ")",
                    "class Main<T>(A, Bee(int, T))", "class Main : Foo", "class Main<T>(val v: T) : Foo<T>, Bar"])
-    imports = r.pick(["", "", "import { Foo } from a.B;\n", "import { Foo, Bar } from x\nimport {Option} from std.option;\n"])
+    imports = gen_imports(r)
     iface = r.pick(["", "", "interface I { method f(): int }\n", "interface J<T> : I { function <R> g(x: T): R method h(): unit }\n"])
     return imports + iface + head + " {\n" + "\n".join(members) + "\n}\n"
 
@@ -716,7 +748,10 @@ def run(ctx):
         batch = []
         for _ in range(min(60, n_svc - sdone)):
             r = rng.fork()
-            if catalogue and r.chance(1, 2):
+            if catalogue and r.chance(1, 4):     # unresolvable imports: the diagnostic must cover the whole import
+                batch.append(("tests.VerifCatalogue", gen_imports(r) + "import { Zz } from no.such"
+                              + r.pick(["", ".Mod", ".Mod.Deep"]) + r.pick(["\n", ";\n", " ", " // c\n"]) + relayout(r, catalogue)))
+            elif catalogue and r.chance(1, 2):
                 batch.append(("tests.VerifCatalogue", relayout(r, catalogue) if r.chance(3, 4) else catalogue))
             elif test_sources:
                 name, src = r.pick(test_sources)
